@@ -41,6 +41,60 @@ type Prog struct {
 	edgeCache map[*ssa.Function][]*ssa.Function
 	sites     map[*ssa.Function][]ssa.CallInstruction
 	addrTaken map[*ssa.Function]bool
+
+	// aliases registered by the rules' anchor resolution: the canonical (pinned-tree) name of an unexported
+	// function, method or type -> the object that plays that role in the tree under analysis after a rename
+	aliasType map[string]*types.Named
+	aliasFunc map[string]*ssa.Function
+}
+
+// canonIdent maps the identifier an aliased object carries in the analysed tree back to its canonical identifier, so
+// that names printed in obligation keys and compared by rules do not change under a rename.
+var canonIdent = map[string]string{}
+
+// Ident returns the canonical spelling of an identifier (itself unless an alias was registered for it).
+func Ident(name string) string {
+	if c, ok := canonIdent[name]; ok {
+		return c
+	}
+	return name
+}
+
+// AliasIdent registers actual as the spelling, in the analysed tree, of the identifier the rules know as canon.
+func AliasIdent(actual, canon string) {
+	if actual != canon {
+		canonIdent[actual] = canon
+	}
+}
+
+// TName is the canonical name of a named type.
+func TName(n *types.Named) string {
+	if n == nil {
+		return ""
+	}
+	return Ident(n.Obj().Name())
+}
+
+// AliasType registers n as the type known to the rules as rel.canon.
+func (p *Prog) AliasType(rel, canon string, n *types.Named) {
+	if p.aliasType == nil {
+		p.aliasType = map[string]*types.Named{}
+	}
+	p.aliasType[rel+"."+canon] = n
+	if n.Obj().Name() != canon {
+		canonIdent[n.Obj().Name()] = canon
+	}
+}
+
+// AliasFunc registers fn as the function (typ == "") or method known to the rules as rel.typ.canon.
+func (p *Prog) AliasFunc(rel, typ, canon string, fn *ssa.Function) {
+	if p.aliasFunc == nil {
+		p.aliasFunc = map[string]*ssa.Function{}
+	}
+	p.aliasFunc[rel+"."+typ+"."+canon] = fn
+	if fn.Name() != canon {
+		canonIdent[fn.Name()] = canon
+	}
 }
 
 // Load loads ./... of repoDir. It fails on any type error in a repo package
@@ -188,6 +242,9 @@ func (p *Prog) SSAPkg(rel string) *ssa.Package {
 
 // Named returns the named type rel.name, or nil.
 func (p *Prog) Named(rel, name string) *types.Named {
+	if n, ok := p.aliasType[rel+"."+name]; ok {
+		return n
+	}
 	pk := p.Pkg(rel)
 	if pk == nil {
 		return nil
@@ -206,6 +263,9 @@ func (p *Prog) Named(rel, name string) *types.Named {
 
 // Func returns the package-level function rel.name, or nil.
 func (p *Prog) Func(rel, name string) *ssa.Function {
+	if f, ok := p.aliasFunc[rel+".."+name]; ok {
+		return f
+	}
 	sp := p.SSAPkg(rel)
 	if sp == nil {
 		return nil
@@ -215,6 +275,9 @@ func (p *Prog) Func(rel, name string) *ssa.Function {
 
 // Method returns method name of type rel.typ (pointer or value receiver), or nil.
 func (p *Prog) Method(rel, typ, name string) *ssa.Function {
+	if f, ok := p.aliasFunc[rel+"."+typ+"."+name]; ok {
+		return f
+	}
 	n := p.Named(rel, typ)
 	if n == nil {
 		return nil
@@ -320,6 +383,17 @@ func FuncName(fn *ssa.Function) string {
 			tok := s[i:j]
 			if k := strings.LastIndex(tok, "/"); k >= 0 {
 				tok = tok[k+1:]
+			}
+			if len(canonIdent) > 0 {
+				parts := strings.Split(tok, ".")
+				for pi, part := range parts {
+					base, suffix := part, ""
+					if d := strings.Index(part, "$"); d >= 0 {
+						base, suffix = part[:d], part[d:]
+					}
+					parts[pi] = Ident(base) + suffix
+				}
+				tok = strings.Join(parts, ".")
 			}
 			out.WriteString(tok)
 			i = j
